@@ -150,6 +150,26 @@ func c17Guid(c *hx.Ctx, g util.EFIGUID, wireToo bool) {
 				bad("signature owner is not Data1..3 little-endian + Data4 on the wire", hx8(b1.Bytes()[:16]), hx8(w[:]))
 				return
 			}
+			// the method twins of the package-level writers
+			if tb := (&signature.SignatureData{Owner: g, Data: []byte{1}}).Bytes(); len(tb) < 16 || !bytes.Equal(tb[:16], w[:]) {
+				bad("SignatureData.Bytes(): signature owner is not Data1..3 little-endian + Data4 on the wire", hx8(tb), hx8(w[:]))
+				return
+			}
+			if tb := (&signature.SignatureList{SignatureType: g, ListSize: 28}).Bytes(); len(tb) < 16 || !bytes.Equal(tb[:16], w[:]) {
+				bad("SignatureList.Bytes(): signature list type is not in wire layout", hx8(tb), hx8(w[:]))
+				return
+			}
+			{
+				l := signature.NewSignatureList(signature.CERT_SHA256_GUID)
+				l.AppendBytes(g, fill(32, 0x19))
+				db := signature.SignatureDatabase{l}
+				var mb bytes.Buffer
+				db.Marshal(&mb)
+				if tb := db.Bytes(); len(tb) < 44 || !bytes.Equal(tb[28:44], w[:]) || !bytes.Equal(mb.Bytes(), tb) || !bytes.Equal(l.Bytes(), tb) {
+					bad("SignatureDatabase.Bytes()/Marshal()/SignatureList.Bytes(): owner of an entry is not in wire layout (or the three encoders disagree)", hx8(tb), hx8(w[:]))
+					return
+				}
+			}
 			sd, err := signature.ReadSignatureData(bytes.NewReader(append(append([]byte{}, w[:]...), 7)), 17)
 			if err != nil || sd.Owner != g {
 				bad("signature owner decoded from wire bytes differs", fmt.Sprint(sd, err), g)
@@ -219,6 +239,21 @@ func c17Str(c *hx.Ctx, s string) {
 		if err != nil || got != s {
 			bad("decoding the encoding does not return the string", fmt.Sprintf("%q %v", got, err), fmt.Sprintf("%q", s))
 			return
+		}
+		// one buffer used for value after value (write, decode, write, decode): each decode returns the
+		// string written last, whatever was decoded from the buffer before
+		{
+			var buf bytes.Buffer
+			buf.Write(want)
+			first, err1 := util.ParseUtf16Var(&buf)
+			buf.Write([]byte{'b', 0, 0, 0})
+			second, err2 := util.ParseUtf16Var(&buf)
+			buf.Write(want)
+			third, err3 := util.ParseUtf16Var(&buf)
+			if err1 != nil || err2 != nil || err3 != nil || first != s || second != "b" || third != s {
+				bad("decoding from a buffer that is reused for the next value does not return the value written last", fmt.Sprintf("%q %q %q %v %v %v", first, second, third, err1, err2, err3), fmt.Sprintf("%q \"b\" %q", s, s))
+				return
+			}
 		}
 		var es efivar.Efistring
 		follow := append(append([]byte{}, want...), 0x41, 0x00, 0xff, 0xfe, 0x00)
